@@ -14,10 +14,18 @@ def run(pid, tier):
     if gen.rc != 0 or 'GENERATED' not in gen.out:
         raise ToolError('GenOrder failed (a law does not hold on the model, or generation error): see work/tlc-%s-gen.log' % pid)
     cost, goal = common.read_ndjson(fc), common.read_ndjson(fg)
-    common.run_bin('order', ['--cost', fc, '--goal', fg, '--out', fr], timeout=3000, log=os.path.join(d, 'harness.log'), package='vh-core')
-    res = common.read_ndjson(fr)
-    if len(res) != len(cost) + len(goal):
-        raise ToolError('harness lost cases')
+    # the same cases under two units: 1 and 2^-57 (all numbers of a case then lie within f64::EPSILON of each other - the laws do not care)
+    res = []
+    for unit in ('1', '6.938893903907228e-18'):
+        common.run_bin('order', ['--cost', fc, '--goal', fg, '--out', fr], timeout=3000, log=os.path.join(d, 'harness.log'), package='vh-core', env={'VH_ORDER_UNIT': unit})
+        part = common.read_ndjson(fr)
+        if len(part) != len(cost) + len(goal):
+            raise ToolError('harness lost cases')
+        res += part
+    cost, goal = [dict(c, unit=u) for u in ('1', '6.938893903907228e-18') for c in cost], [dict(c, unit=u) for u in ('1', '6.938893903907228e-18') for c in goal]
+    # order of res: per unit, cost cases then goal cases
+    half = len(res) // 2
+    res = res[:len(cost) // 2] + res[half:half + len(cost) // 2] + res[len(cost) // 2:half] + res[half + len(cost) // 2:]
     verdict = common.Verdict(pid)
     recs = []
     for exp, act in zip(cost + goal, res):
